@@ -8,6 +8,8 @@ package c12
 import (
 	"fmt"
 	"os"
+	"path/filepath"
+	"strings"
 	"time"
 
 	"verif/harness/internal/core"
@@ -23,6 +25,7 @@ func init() {
 // Prelude: the observation of a Date object.  Arrays are encoded
 // element-wise; a caught exception is {t:"thr", name}.  TV() maps a -0 time
 // value to +0: 15.9.1.14 step 3 leaves that choice to the implementation.
+// MKJ builds a scripted object for the generic toJSON.
 const prelude = `
 function THR(n){ this.name = n; }
 function ENCOBJ(v){
@@ -44,15 +47,33 @@ function OBSL(d){
   return [d.getFullYear(), d.getMonth(), d.getDate(), d.getDay(), d.getHours(), d.getMinutes(), d.getSeconds(),
           d.getMilliseconds(), d.getTimezoneOffset()];
 }
+function MKJ(id, vo, ts, iso){
+  var o = {}; BEH(o, "valueOf", "vo", vo, id); BEH(o, "toString", "ts", ts, id);
+  if (iso.k === "noncallable") o.toISOString = 1;
+  else if (iso.k !== "absent") o.toISOString = function(){ LOG.push("iso" + id); if (iso.k === "ret") return iso.v; throw "Ti" + id; };
+  return o;
+}
 `
 
+// mutatedPrelude is the adapter with a seeded fault (getUTCMonth and
+// getUTCDate swapped in the observation): the self-test demands that the
+// check rejects it.
+var mutatedPrelude = strings.Replace(prelude, "d.getUTCMonth(), d.getUTCDate()", "d.getUTCDate(), d.getUTCMonth()", 1)
+
 type bounds struct {
-	nRand, nRandBlk, nSeq2, nSeq3, nBase int
+	nRand, nRandBlk, nSeq2, nSeq3, seqEvery, nBase int
 }
 
 func cfg(c *core.Ctx, fams string, b bounds) string {
-	return fmt.Sprintf("CONSTANTS\n OpenDev = %s\n Fams = %s\n NRand = %d\n NRandBlk = %d\n NSeq2 = %d\n NSeq3 = %d\n NBase = %d\nINIT Init\nNEXT Next\nINVARIANT Emit\nCHECK_DEADLOCK FALSE\n",
-		core.TLASet(c.Findings.OpenIDs()), fams, b.nRand, b.nRandBlk, b.nSeq2, b.nSeq3, b.nBase)
+	return fmt.Sprintf("CONSTANTS\n OpenDev = %s\n Fams = %s\n NRand = %d\n NRandBlk = %d\n NSeq2 = %d\n NSeq3 = %d\n SeqEvery = %d\n Seed = %d\n NBase = %d\nINIT Init\nNEXT Next\nINVARIANT Emit\nCHECK_DEADLOCK FALSE\n",
+		core.TLASet(c.Findings.OpenIDs()), fams, b.nRand, b.nRandBlk, b.nSeq2, b.nSeq3, b.seqEvery, c.Seed%1000, b.nBase)
+}
+
+var assume = []string{
+	"the check process runs with TZ=UTC (LocalTZA = 0, no DST): local-time methods are judged through LocalTime(t) = t",
+	"a -0 time value is identified with +0 (15.9.1.14 step 3 leaves the choice to the implementation)",
+	"Date.parse is judged only on texts of the 15.9.1.15 format (anything else is implementation-defined, 15.9.4.2)",
+	"time values beyond the range are generated up to |t| <= 1e17 only (the deviating instance follows otto's unclipped values on TLC integers)",
 }
 
 var Spec = &gen.Spec{
@@ -60,21 +81,59 @@ var Spec = &gen.Spec{
 	Prelude: prelude,
 	PerVM:   200,
 	Runs: func(c *core.Ctx) []gen.RunCfg {
-		b := bounds{nRand: 250, nRandBlk: 16, nSeq2: 1, nSeq3: 1, nBase: 1}
+		b := bounds{nRand: 200, nRandBlk: 16, nSeq2: 1, nSeq3: 2, seqEvery: 4, nBase: 1}
 		if c.Thorough() {
-			b = bounds{nRand: 4000, nRandBlk: 32, nSeq2: 6, nSeq3: 10, nBase: 2}
+			b = bounds{nRand: 4000, nRandBlk: 32, nSeq2: 6, nSeq3: 10, seqEvery: 1, nBase: 2}
 		}
 		o := tlc.Opts{Seed: c.Seed}
 		return []gen.RunCfg{
-			{Name: "instants(accessors,toISOString,toJSON)+Date.UTC/constructor+Date.parse", Cfg: cfg(c, `{"inst", "utc", "parse"}`, b), Opts: o},
+			{Name: "instants(accessors,toISOString,toJSON)+Date.UTC/constructor+Date.parse+argument-conversion+this-checks", Cfg: cfg(c, `{"inst", "utc", "parse", "conv", "this"}`, b), Opts: o},
 			{Name: "setter-sequences", Cfg: cfg(c, `{"set"}`, b), Opts: o},
 		}
 	},
-	Assume: []string{
-		"the check process runs with TZ=UTC (LocalTZA = 0, no DST): local-time methods are judged through LocalTime(t) = t",
-		"a -0 time value is identified with +0 (15.9.1.14 step 3 leaves the choice to the implementation)",
-		"Date.parse is judged only on texts of the 15.9.1.15 format (anything else is implementation-defined, 15.9.4.2)",
-	},
+	Assume: assume,
 }
 
-func Check(c *core.Ctx) (map[string]any, []string, error) { return gen.Check(c, Spec) }
+// selfTest replays a small family through the mutated adapter on a scratch
+// context and returns the number of cases it rejected (must be > 0).
+func selfTest(c *core.Ctx) (int, int64, error) {
+	sc := &core.Ctx{Property: c.Property + "-selftest", Tier: c.Tier, Seed: c.Seed, SpecDir: c.SpecDir, Workers: c.Workers,
+		Findings: c.Findings, Start: time.Now(), KnownHits: map[string]int64{}}
+	defer os.RemoveAll(filepath.Join(core.Root, "replays", sc.Property))
+	sp := &gen.Spec{Module: "C12", Prelude: mutatedPrelude, PerVM: 200,
+		Runs: func(c *core.Ctx) []gen.RunCfg {
+			return []gen.RunCfg{{Name: "selftest", Cfg: cfg(c, `{"self"}`, bounds{1, 1, 1, 1, 1, 1}), Opts: tlc.Opts{Seed: c.Seed}}}
+		}}
+	cov, _, err := gen.Check(sc, sp)
+	if err != nil {
+		return 0, 0, err
+	}
+	n, _ := cov["evaluations"].(int64)
+	return len(sc.Violations()), n, nil
+}
+
+func Check(c *core.Ctx) (map[string]any, []string, error) {
+	cov, as, err := gen.Check(c, Spec)
+	if err != nil {
+		return nil, nil, err
+	}
+	rej, n, err := selfTest(c)
+	if err != nil {
+		return nil, nil, fmt.Errorf("self-test: %v", err)
+	}
+	cov["selftest_mutated_adapter"] = map[string]any{"mutation": "getUTCMonth/getUTCDate swapped in the observation", "cases": n, "rejected": rej}
+	if rej == 0 {
+		return nil, nil, fmt.Errorf("self-test: the mutated adapter was not rejected on %d cases (the binding is vacuous)", n)
+	}
+	nj := 6000
+	if c.Thorough() {
+		nj = 150000
+	}
+	jc, err := judge(c, nj)
+	if err != nil {
+		return nil, nil, fmt.Errorf("judge: %v", err)
+	}
+	cov["judge_random_inputs"] = jc
+	cov["traces_validated_against_impl"] = cov["traces_validated_against_impl"].(int64) + int64(nj)
+	return cov, as, nil
+}
